@@ -81,7 +81,10 @@ def r2(ctx):
                      expected="template[<indices>] = 0", found=f"{len(stores)} store(s), {len(other)} other mutation(s)"):
         return
     s = stores[0]
-    ctx.check(s.value == tm.ZERO and s.guards == tm.TRUE, fi, "the overwrite writes the constant 0 unconditionally", line=s.stmt.lineno,
+    # (a guard that only excludes the empty argument list - which raises - skips nothing)
+    harmless = {tm.compare("!=", tm.length(L), 0).key, tm.compare(">", tm.length(L), 0).key}
+    gparts = s.guards.parts if isinstance(s.guards, tm.And) else ([] if s.guards == tm.TRUE else [s.guards])
+    ctx.check(s.value == tm.ZERO and all(g_.key in harmless for g_ in gparts), fi, "the overwrite writes the constant 0 unconditionally", line=s.stmt.lineno,
               role="mask:value", expected="0", found=f"{s.value} if {s.guards}")
     # index list: endpoints = accumulate(lengths) without its last element, shifted by o - 1
     idx = s.idx[0] if len(s.idx) == 1 else None
@@ -109,7 +112,19 @@ def r2(ctx):
         # cannot index: the single-series case)
         def _int_array(a):
             return isinstance(a, App) and a.fn in ("numpy.array", "numpy.asarray") and a.args and str(a.kwarg("dtype")) in ("builtins.int", "numpy.int64", "numpy.intp", "numpy.int_")
-        arrs = [a for a in atoms if _int_array(a) or isinstance(a, (Sym, Idx))]
+
+        def _int_cumsum(a):
+            # numpy.cumsum(lengths[:n-1], dtype=<integer>) is accumulate(lengths) without its last element, as an integer array
+            # (also for the empty prefix: the dtype is given)
+            return isinstance(a, App) and a.fn == "numpy.cumsum" and len(a.args) == 1 and str(a.kwarg("dtype")) in ("builtins.int", "numpy.int64", "numpy.intp", "numpy.int_") \
+                and isinstance(a.args[0], Idx) and a.args[0].base == L and len(a.args[0].idx) == 1 and isinstance(a.args[0].idx[0], Slc) \
+                and a.args[0].idx[0].lo in (None, tm.ZERO) and a.args[0].idx[0].step is None \
+                and a.args[0].idx[0].hi in (tm.const(-1), tm.add(tm.length(L), -1))
+        cs = [a for a in atoms if _int_cumsum(a)]
+        if len(cs) == 1 and tm.add(idx, tm.neg(cs[0])) == shift:
+            ok = True
+            found = f"{cs[0]} + {shift}"
+        arrs = [a for a in atoms if _int_array(a) or isinstance(a, (Sym, Idx))] if not ok else []
         if len(arrs) == 1:
             a = arrs[0]
             E = a.args[0] if isinstance(a, App) else a
